@@ -956,6 +956,32 @@ fn honest_mint(v: &Fam, sp: &WlSpec, i: usize, who: &str, amt: u128) -> COp {
     }
 }
 
+/// numbers to declare as `allocation`: every integer literal of the minter / whitelist sources (and its
+/// neighbours) that fits u32, plus the extremes
+fn alloc_pool() -> &'static Vec<u32> {
+    static POOL: std::sync::OnceLock<Vec<u32>> = std::sync::OnceLock::new();
+    POOL.get_or_init(|| {
+        let lits = harvest_literals(&[
+            "contracts/minters/vending-minter-merkle-wl/src/contract.rs",
+            "contracts/minters/vending-minter-merkle-wl-featured/src/contract.rs",
+            "contracts/minters/open-edition-minter-merkle-wl/src/contract.rs",
+            "contracts/whitelists/whitelist/src/contract.rs",
+            "contracts/whitelists/whitelist-merkletree/src/contract.rs",
+            "contracts/whitelists/tiered-whitelist-merkletree/src/contract.rs",
+        ]);
+        let mut v: BTreeSet<u32> = [0u32, 1, 2, 3, 4, 5, 9, u32::MAX - 1, u32::MAX].into_iter().collect();
+        for l in lits {
+            for d in [-1i128, 0, 1] {
+                let x = l as i128 + d;
+                if x >= 0 && x <= u32::MAX as i128 {
+                    v.insert(x as u32);
+                }
+            }
+        }
+        v.into_iter().collect()
+    })
+}
+
 /// adversarial argument menus for a Merkle-variant minter
 fn adversarial_mint(rng: &mut Rng, sp: &WlSpec, i: usize, who: &str, amt: u128) -> COp {
     let tiered = is_tiered(&sp.kind);
@@ -965,7 +991,7 @@ fn adversarial_mint(rng: &mut Rng, sp: &WlSpec, i: usize, who: &str, amt: u128) 
     if !is_merkle(&sp.kind) {
         return match rng.below(5) {
             0 => mintm(who, amt, None, None, Some(5)),
-            4 => mintm(who, amt, Some(u32::MAX), None, Some(*rng.pick(&[0u32, 1, 29, 30, 31, 49, 50, 51, u32::MAX - 1, u32::MAX]))),
+            4 => mintm(who, amt, Some(u32::MAX), None, Some(*rng.pick(alloc_pool()))),
             1 => mintm(who, amt, Some(rng.below(3) as u32), None, Some(rng.range(2, 30) as u32)),
             2 => mintm(who, amt, None, Some(junk_proof(false)), Some(5)),
             _ => mintm(who, amt, Some(1), Some(vec![]), Some(7)),
@@ -1009,7 +1035,7 @@ fn adversarial_mint(rng: &mut Rng, sp: &WlSpec, i: usize, who: &str, amt: u128) 
                 1 => junk_proof(tiered),
                 _ => vec!["zz-not-hex".to_string()],
             }),
-            Some(*rng.pick(&[0u32, 9, 50, 51, u32::MAX])),
+            Some(*rng.pick(alloc_pool())),
         ),
         // own proof, allocation dropped
         _ => {
